@@ -78,6 +78,14 @@ Theorem C20_upper_bound_successor : forall k mx, bytes_ltb k (mx ++ [0%N]) = byt
 Proof. exact bytes_ltb_succ. Qed.
 Print Assumptions C20_upper_bound_successor.
 
+(* rocksdb iterates with prefix_same_as_start over a 3-byte prefix: a read whose two bounds share a prefix
+   never needs a key outside it, so the clamped-cursor statement above covers the per-table reads *)
+Theorem C20_prefix_local_range : forall n a b k,
+  firstn n a = firstn n b -> (n <= length a)%nat -> (n <= length b)%nat ->
+  bytes_leb a k = true -> bytes_leb k b = true -> firstn n k = firstn n a.
+Proof. exact between_shares_prefix. Qed.
+Print Assumptions C20_prefix_local_range.
+
 (* ===== (3) sorted-map laws ===== *)
 Theorem C20_find_insert_same : forall k v m, sm_find k (sm_insert k v m) = Some v.
 Proof. exact find_insert_same. Qed.
